@@ -256,6 +256,10 @@ fn run_one(kind: &str, sub: Sub, seed: u64, replay: Option<Vec<u8>>) -> (sched::
                             s.evs.iter().filter(|e| e.what == "sent").all(|e| s.evs.iter().filter(|g| g.what == "got" && g.v == e.v).count() >= copies)
                         }));
                         sh.lock().unwrap().evs.push(Ev { who: p, what: "others_finished".into(), v, pos });
+                        // everything the others sent was delivered and this send is still suspended (it has published nothing): nothing awaits
+                        // consumption -- what flush() / a graceful close() wait for must say so
+                        let pend = ch.pending();
+                        if pend != 0 { sh.lock().unwrap().evs.push(Ev { who: p, what: "pending_while_suspended".into(), v: pend, pos }); }
                         gate.store(true, SeqCst);
                         ctx.call(p, "resume");
                         // its setter has completed and nobody else is active: re-polled like a yielding task, the send must come back
@@ -449,6 +453,9 @@ fn run_one(kind: &str, sub: Sub, seed: u64, replay: Option<Vec<u8>>) -> (sched::
     for e in s.evs.iter().filter(|e| e.what == "async_stuck") {
         let other_suspended = s.evs.iter().any(|x| x.what == "suspended") && !s.evs.iter().any(|x| x.what == "others_finished");
         viol.push(("blocked_by_suspended_send".into(), format!("the send_with_async of event {} (producer {}) stayed pending through 60 re-polls after its own setter had completed{} (kind {kind})", e.v, e.who, if other_suspended { " while another send_with_async was suspended" } else { "" })));
+    }
+    for e in s.evs.iter().filter(|e| e.what == "pending_while_suspended") {
+        viol.push(("blocked_by_suspended_send".into(), format!("while a send_with_async is suspended (it has published nothing) and everything the other producers sent was delivered, pending_items_count() reports {} on the {kind} channel: a flush() or graceful close() issued now waits for the suspended send", e.v)));
     }
     for e in s.evs.iter().filter(|e| e.what == "async_waits") {
         viol.push(("async_send_never_returned".into(), format!("the send_with_async of event {} (producer {}) stayed pending through 60 re-polls after its setter had completed and every other producer had finished ({} event(s) pending, kind {kind}): it neither accepted nor rejected the event -- it waits", e.v, e.who, ch.pending())));
